@@ -433,6 +433,75 @@ pub struct NetCase {
     /// the URL names the loopback broker as 127.0.0.1 (false) or as the IPv6 literal [::1] (true)
     #[serde(default)]
     pub ipv6: bool,
+    /// the URL names the broker by a host name that resolves to three addresses of which only
+    /// the last one tried has a listener (needs the harness's own DNS responder on
+    /// 127.0.0.1:53, which the sandbox's resolv.conf points to; falls back to 127.0.0.1 if it
+    /// cannot be bound): the parameters must reach whichever address finally answers
+    #[serde(default)]
+    pub multi_addr: bool,
+}
+
+const MULTI_NAME: &str = "avh-multi.test";
+
+/// A minimal DNS responder for MULTI_NAME: A -> 127.0.0.1, 127.0.0.2, 127.0.0.3; anything else
+/// -> empty NOERROR answer. Started once per process; false if port 53 cannot be bound.
+fn ensure_dns() -> bool {
+    static DNS: std::sync::OnceLock<bool> = std::sync::OnceLock::new();
+    *DNS.get_or_init(|| {
+        let sock = match std::net::UdpSocket::bind("127.0.0.1:53") {
+            Ok(s) => s,
+            Err(_) => return false,
+        };
+        let _ = std::thread::Builder::new().name("avh-dns".into()).spawn(move || {
+            let mut buf = [0u8; 512];
+            loop {
+                let (n, from) = match sock.recv_from(&mut buf) {
+                    Ok(x) => x,
+                    Err(_) => return,
+                };
+                if n < 17 {
+                    continue;
+                }
+                let q = &buf[12..n];
+                let mut i = 0usize;
+                let mut name = String::new();
+                while i < q.len() && q[i] != 0 {
+                    let l = q[i] as usize;
+                    if i + 1 + l > q.len() {
+                        break;
+                    }
+                    if !name.is_empty() {
+                        name.push('.');
+                    }
+                    name.push_str(&String::from_utf8_lossy(&q[i + 1..i + 1 + l]).to_ascii_lowercase());
+                    i += l + 1;
+                }
+                if i + 5 > q.len() {
+                    continue;
+                }
+                let qtype = u16::from_be_bytes([q[i + 1], q[i + 2]]);
+                let mut ans = Vec::new();
+                let mut count = 0u16;
+                if qtype == 1 && name == MULTI_NAME {
+                    for last in [1u8, 2, 3] {
+                        ans.extend_from_slice(&[0xc0, 0x0c, 0, 1, 0, 1, 0, 0, 0, 0, 0, 4, 127, 0, 0, last]);
+                        count += 1;
+                    }
+                }
+                let mut resp = Vec::new();
+                resp.extend_from_slice(&buf[..2]);
+                resp.extend_from_slice(&[0x81, 0x80, 0, 1]);
+                resp.extend_from_slice(&count.to_be_bytes());
+                resp.extend_from_slice(&[0, 0, 0, 0]);
+                resp.extend_from_slice(&q[..i + 5]);
+                resp.extend_from_slice(&ans);
+                let _ = sock.send_to(&resp, from);
+            }
+        });
+        // does the resolver really come to us?
+        use std::net::ToSocketAddrs;
+        (MULTI_NAME, 5672u16).to_socket_addrs().map(|a| a.count() >= 3).unwrap_or(false)
+    })
 }
 
 struct Seen {
@@ -532,9 +601,18 @@ fn tcp_broker(listener: TcpListener, client_done: std::sync::Arc<std::sync::atom
 
 pub fn exec_net(c: &NetCase) -> Outcome {
     // an IPv6 loopback may not exist on the machine: such cases fall back to IPv4 (and say so)
-    let v6 = if c.ipv6 { TcpListener::bind("[::1]:0").ok() } else { None };
-    let host = if v6.is_some() { "[::1]" } else { "127.0.0.1" };
-    let listener = match v6.map(Ok).unwrap_or_else(|| TcpListener::bind("127.0.0.1:0")) {
+    let v6 = if c.ipv6 && !c.multi_addr { TcpListener::bind("[::1]:0").ok() } else { None };
+    // the resolver sorts 127.0.0.1 first; the listener is on 127.0.0.3 only, so at least one
+    // attempt is refused before the connection comes about
+    let multi = if c.multi_addr && ensure_dns() { TcpListener::bind("127.0.0.3:0").ok() } else { None };
+    let host = if v6.is_some() {
+        "[::1]"
+    } else if multi.is_some() {
+        MULTI_NAME
+    } else {
+        "127.0.0.1"
+    };
+    let listener = match v6.or(multi).map(Ok).unwrap_or_else(|| TcpListener::bind("127.0.0.1:0")) {
         Ok(l) => l,
         Err(e) => {
             return Outcome {
@@ -612,7 +690,17 @@ pub fn exec_net(c: &NetCase) -> Outcome {
     if seen.tune_ok != (cm, 131072, hb) {
         return Outcome::fail("net-tune-ok-differs-from-url", format!("{}: TuneOk={:?}, expected ({}, 131072, {})", url, seen.tune_ok, cm, hb));
     }
-    Outcome::pass(true).label(if host == "[::1]" { "loopback-ipv6-literal" } else if c.ipv6 { "no-ipv6-loopback-fell-back-to-ipv4" } else { "loopback-ipv4" })
+    Outcome::pass(true).label(if host == "[::1]" {
+        "loopback-ipv6-literal"
+    } else if host == MULTI_NAME {
+        "host-name-with-three-addresses-last-one-listening"
+    } else if c.multi_addr {
+        "no-local-dns-fell-back-to-ipv4"
+    } else if c.ipv6 {
+        "no-ipv6-loopback-fell-back-to-ipv4"
+    } else {
+        "loopback-ipv4"
+    })
 }
 
 fn strat_net(_t: Tier) -> BoxedStrategy<NetCase> {
@@ -626,8 +714,9 @@ fn strat_net(_t: Tier) -> BoxedStrategy<NetCase> {
         prop_oneof![1 => Just(None), 2 => any::<u16>().prop_map(Some)],
         prop::bool::weighted(0.2),
         prop::bool::weighted(0.3),
+        prop::bool::weighted(0.25),
     )
-        .prop_map(|(user, pass, vhost, heartbeat, channel_max, external, ipv6)| NetCase {
+        .prop_map(|(user, pass, vhost, heartbeat, channel_max, external, ipv6, multi_addr)| NetCase {
             user,
             pass,
             vhost,
@@ -635,6 +724,7 @@ fn strat_net(_t: Tier) -> BoxedStrategy<NetCase> {
             channel_max,
             external,
             ipv6,
+            multi_addr,
         })
         .boxed()
 }
@@ -737,7 +827,7 @@ pub fn parts() -> Vec<Box<dyn PartDyn>> {
         }),
         Box::new(Part::<NetCase> {
             name: "loopback",
-            rule: "Connection::insecure_open(url) against a loopback TCP broker inside the harness, named in the URL as 127.0.0.1 or (30 %, where the machine has an IPv6 loopback) as the literal [::1]: StartOk mechanism/response, Open.virtual_host and TuneOk must be what the URL spells out; every case non-trivial",
+            rule: "Connection::insecure_open(url) against a loopback TCP broker inside the harness, named in the URL as 127.0.0.1 or (30 %, where the machine has an IPv6 loopback) as the literal [::1], or (25 %, where the harness can bind its own DNS responder on 127.0.0.1:53) by a host name that resolves to three loopback addresses of which only the last one tried listens: StartOk mechanism/response, Open.virtual_host and TuneOk must be what the URL spells out; every case non-trivial",
             cases: |t| t.pick(100, 3000),
             threads: 8,
             strategy: strat_net,
